@@ -280,7 +280,10 @@ class _Guard(PathInterp):
         while isinstance(t, ast.UnaryOp) and isinstance(t.op, ast.Not):
             t, neg = t.operand, not neg
         if isinstance(t, ast.Compare) and len(t.ops) == 1 and isinstance(t.ops[0], (ast.Eq, ast.NotEq)):
-            sides = {norm(t.left), norm(t.comparators[0])}
+            from ..astutil import expand as _expand_g, single_locals as _single_g
+            _defs_g = {k_: v_ for k_, v_ in _single_g(self.fn).items() if k_ != nm}     # the loaded object itself stays a name
+            sides = {norm(_expand_g(t.left, _defs_g, set())), norm(_expand_g(t.comparators[0], _defs_g, set()))}
+            # (`loaded_params = loaded.params` named first is looked through)
             if '%s.params' % nm in sides and any(s != '%s.params' % nm for s in sides):
                 equal_on_true = isinstance(t.ops[0], ast.Eq) != neg
                 self.holder['compare'] = norm(test)
